@@ -29,8 +29,6 @@ def register(reg):
     NetAddr = reg.usort('NetAddr', attrs={'host': KStr})
     reg.cls('ext:Env', fields={'max_send': Int, 'donation_address': KStr, 'drop_client': Opt(Opaque)},
             inv=['self.max_send >= 350000'])
-    reg.cls('ext:DBState', fields={'height': Int}, inv=['self.height >= -1'])
-    reg.cls(DBK, fields={'state': Obj('ext:DBState')})
     reg.cls(SM, fields={'db': Obj(DBK), 'env': Obj('ext:Env'), 'hsub_results': Opt(KJ), 'txs_sent': Int,
                         'daemon': Obj('ext:Daemon')})
     reg.cls('ext:Daemon', fields={})
